@@ -1,0 +1,39 @@
+//go:build verif
+
+package webserver
+
+import (
+	"net/http"
+	"os"
+)
+
+// Export for the HTTP part of the C12 (no client input crashes the server;
+// every HTTP request receives a response) correspondence driver.  Add-only.
+
+// VerifSiteHandler returns a mux with the handlers that Serve registers on
+// the default mux, under the same patterns.  staticDir is opened as the
+// static root.
+func VerifSiteHandler(staticDir string) (http.Handler, error) {
+	root, err := os.OpenRoot(staticDir)
+	if err != nil {
+		return nil, err
+	}
+	staticRoot = root
+	mux := http.NewServeMux()
+	mux.Handle("/", &fileHandler{staticRoot})
+	mux.HandleFunc("/group/", groupHandler)
+	mux.HandleFunc("/recordings",
+		func(w http.ResponseWriter, r *http.Request) {
+			http.Redirect(w, r,
+				"/recordings/", http.StatusPermanentRedirect)
+		})
+	mux.HandleFunc("/recordings/", recordingsHandler)
+	mux.HandleFunc("/ws", wsHandler)
+	mux.HandleFunc("/public-groups.json", publicHandler)
+	mux.HandleFunc("/galene-api/", apiHandler)
+	return mux, nil
+}
+
+// VerifGroupHandler is the handler of /group/ alone (r.URL.Path is handed to
+// it as it is, without the path cleaning of the mux).
+func VerifGroupHandler() http.Handler { return http.HandlerFunc(groupHandler) }
